@@ -88,7 +88,20 @@ pub fn recover(signature: [u8; 64], message: &Message) -> Result<PublicKey, Erro
     let (sig, recid) = decode_signature(signature);
     let sig =
         k256::ecdsa::Signature::from_slice(&sig).map_err(|_| Error::InvalidSignature)?;
-    let vk = VerifyingKey::recover_from_prehash(&**message, &sig, recid.into())
+    let mut recid: RecoveryId = recid.into();
+    // libsecp256k1 (the `std` backend) recovers a key from a signature whose `s` is in
+    // the upper half of the group order, while `recover_from_prehash` refuses it.
+    // (r, s) with nonce point R and (r, n - s) with nonce point -R are signatures of
+    // the same key, so normalize `s` and flip the parity to recover the same key as
+    // the other backend.
+    let sig = match sig.normalize_s() {
+        Some(low) => {
+            recid = RecoveryId::new(!recid.is_y_odd(), recid.is_x_reduced());
+            low
+        }
+        None => sig,
+    };
+    let vk = VerifyingKey::recover_from_prehash(&**message, &sig, recid)
         .map_err(|_| Error::InvalidSignature)?;
     Ok(PublicKey::from(&vk))
 }
